@@ -170,7 +170,7 @@ def observe(calls, order_seed=0, inputs="real"):
     return case
 
 
-def observe_two_phases(calls_a, calls_b):
+def observe_two_phases(calls_a, calls_b, order_a=None, order_b=None):
     """Two phases inserted in non-alphabetical order ('zeta' first, then 'alpha'), each with its own temporaries: one case
     per phase (global table + that phase's table against the values stored while that phase ran)."""
     import contextlib
@@ -181,7 +181,14 @@ def observe_two_phases(calls_a, calls_b):
     from dagrt.language import DAGCode
     cba, _ = progs.replay_calls("zeta", calls_a)
     cbb, _ = progs.replay_calls("alpha", calls_b)
-    code = DAGCode.from_phases_list([cba.as_execution_phase("alpha"), cbb.as_execution_phase("zeta")], "zeta")
+    if order_a is None and order_b is None:
+        code = DAGCode.from_phases_list([cba.as_execution_phase("alpha"), cbb.as_execution_phase("zeta")], "zeta")
+    else:
+        # the statements of each phase listed in a given order (a phase holds them "in no particular order")
+        from dagrt.language import ExecutionPhase
+        sa, sb = list(cba.statements), list(cbb.statements)
+        code = DAGCode.from_phases_list([ExecutionPhase("zeta", "alpha", [sa[i] for i in (order_a or range(len(sa)))]),
+                                         ExecutionPhase("alpha", "zeta", [sb[i] for i in (order_b or range(len(sb)))])], "zeta")
     freg = register_ode_rhs(base_function_registry, "u", identifier="<func>f")
     out = []
     try:
@@ -250,10 +257,11 @@ def run(chk):
                     [assign("cc", P(V("<dt>"), ["cx", 0, 1])), assign("c2", V("cc")), assign("<p>s", P(V("<p>s"), V("c2")))]):
             reader = [assign("<p>o", P(V("<p>s"), C(2))), assign("<p>s", S(V("<dt>"), C(0)))]
             init = [assign("<p>s", S(V("<dt>"), C(0)))]
-            if reader_first:
-                cases += observe_two_phases(reader, wid)          # zeta reads (and re-initialises), alpha widens
-            else:
-                cases += observe_two_phases(init + wid, reader)   # zeta widens, alpha reads
+            import itertools
+            a, b = (init + reader, wid) if reader_first else (init + wid, reader)    # which phase comes first in the mapping
+            for oa in itertools.permutations(range(len(a))):
+                for ob in itertools.permutations(range(len(b))):
+                    cases += observe_two_phases(a, b, list(oa), list(ob))
     # widening family: a variable whose kind is widened (real -> complex, scalar -> array, scalar -> user type)
     # with a copy chain hanging off it, presented to inference in many statement orders
     x0 = assign("x", P(V("<dt>"), C(2)))
